@@ -292,6 +292,7 @@ density_sketch<T, K, A> density_sketch<T, K, A>::deserialize(std::istream& is, c
   int64_t num_to_read = num_retained; // num_retrained is uint32_t so this allows error checking
   while (num_to_read > 0) {
     const auto level_size = read<uint32_t>(is);
+    if (level_size > num_to_read) throw std::runtime_error("Error deserializing sketch: level size exceeds the number of retained points");
     Level lvl(allocator);
     lvl.reserve(level_size);
     for (uint32_t i = 0; i < level_size; ++i) {
@@ -357,7 +358,9 @@ density_sketch<T, K, A> density_sketch<T, K, A>::deserialize(const void* bytes, 
   int64_t num_to_read = num_retained; // num_retained is uint32_t so this allows error checking
   while (num_to_read > 0) {
     uint32_t level_size;
+    ensure_minimum_memory(end_ptr - ptr, sizeof(level_size));
     ptr += copy_from_mem(ptr, level_size);
+    if (level_size > num_to_read) throw std::runtime_error("Error deserializing sketch: level size exceeds the number of retained points");
     ensure_minimum_memory(end_ptr - ptr, level_size * pt_size);
     Level lvl(allocator);
     lvl.reserve(level_size);
